@@ -72,6 +72,7 @@ deriving DecidableEq, Repr, Inhabited
 
 inductive Ev
   | got (c item : Nat) | exited (c : Nat) | taskDone (u : Nat) | valueError | sawCancel (c : Nat) | joined (j : Nat)
+  | handTook (item : Nat)          -- non-task code took `item` with `get_nowait()` (it marks it by hand at once)
 deriving DecidableEq, Repr, Inhabited
 
 /-! ## the accounting core -/
@@ -85,13 +86,14 @@ structure K where
   joiners     : List Joiner
   puts        : Nat                -- ghost: number of puts
   exits       : Nat                -- ghost: number of block exits
+  takes       : Nat                -- ghost: number of items taken with `get_nowait()` and marked by hand
   tdCalls     : Nat                -- ghost: number of `task_done()` calls
   valueErrors : Nat                -- ghost: how many of them raised `ValueError`
 deriving Repr, Inhabited
 
 def K.init : K :=
   { items := [], unfinished := 0, finished := true, evWaiters := [], cores := [], joiners := [],
-    puts := 0, exits := 0, tdCalls := 0, valueErrors := 0 }
+    puts := 0, exits := 0, takes := 0, tdCalls := 0, valueErrors := 0 }
 
 namespace K
 
@@ -142,6 +144,13 @@ def taskDone (k : K) : K :=
 /-- the block of consumer `c` is left: `__aexit__` calls `item_processed()` -/
 def exit (k : K) (c : Nat) (e : Exit) : K :=
   ((({ k with exits := k.exits + 1 } : K).taskDone).addMark c).setPhase c (.done e true)
+
+/-- a *hand mark*: code outside every consumer task calls `get_nowait()` — `QueueEmpty` on an empty queue, nothing
+changes — and marks the item it got with `item_processed()`, i.e. `task_done()`, at once.  One step. -/
+def handTake (k : K) : K :=
+  match k.items with
+  | [] => k
+  | _ :: rest => ({ k with items := rest, takes := k.takes + 1 } : K).taskDone
 
 /-- does this step of joiner `j` make `join()` return? -/
 def joins (k : K) (j : Nat) : Bool :=
@@ -194,6 +203,7 @@ inductive Input
   | join                           -- a new task awaiting `queue.join()`
   | cancel (c : Nat)               -- `Task.cancel()` on consumer `c`
   | gate (c : Nat) (exc : Bool)    -- the body of consumer `c` finishes normally / raises
+  | take                           -- non-task code: `get_nowait()`, then `item_processed()` for the item it got
   | run (i : Nat)                  -- the loop executes the `i`-th ready handle
 deriving DecidableEq, Repr, Inhabited
 
@@ -253,6 +263,16 @@ def exitBlock (q : Q) (c : Nat) (e : Exit) : Q :=
             ready := q.ready ++ (if q.k.unfinished = 1 then q.k.wokenRefs else []),
             log := q.log ++ [.exited c, if q.k.unfinished = 0 then .valueError else .taskDone (q.k.unfinished - 1)] } : Q).modA c
     fun x => { x with suspended := false }
+
+/-- `take`: `item = q.get_nowait()` (pops the head; there are no putters to wake, the queue is unbounded; the getters
+are not touched) followed by `q.item_processed()`; on an empty queue `QueueEmpty` is raised and nothing changes -/
+def handTake (q : Q) : Q :=
+  match q.k.items with
+  | [] => q
+  | x :: _ =>
+    { q with k := q.k.handTake,
+             ready := q.ready ++ (if q.k.unfinished = 1 then q.k.wokenRefs else []),
+             log := q.log ++ [.handTook x, if q.k.unfinished = 0 then .valueError else .taskDone (q.k.unfinished - 1)] }
 
 /-- `except: getter.cancel(); remove from _getters; if not empty and not getter.cancelled(): wake next; raise` -/
 def abortGet (q : Q) (c : Nat) (wasResolved : Bool) : Q :=
@@ -332,6 +352,7 @@ def step (q : Q) : Input → Q
   | .join => q.join
   | .cancel c => q.cancelConsumer c
   | .gate c exc => q.gate c exc
+  | .take => q.handTake
   | .run i =>
     match q.ready[i]? with
     | none => q
